@@ -416,6 +416,14 @@ func checkTotalCanon(c *core.Child, i uint64, r *core.Rand, b []byte, t byte, sr
 			in = append(r.Bytes(off), b...)
 		}
 		ra := decodeRA(in, t, off)
+		// thriftrw's own forcing function must come to the same conclusion as
+		// forcing element by element (it releases what it walks: own decode)
+		evr := binary.NewReader(bytes.NewReader(in))
+		if v, _, err := evr.ReadValue(wire.Type(t), int64(off)); err == nil {
+			if everr := wire.EvaluateValue(v); (everr == nil) != ra.ok {
+				bad(fmt.Sprintf("wire.EvaluateValue reports %v on a decoded value whose element-by-element forcing reports %v", everr, ra.err), nil)
+			}
+		}
 		class := r.Intn(wb.NumChunkings)
 		seed := r.Uint64()
 		st, hb := decodeStream(b, t, class, seed)
